@@ -52,7 +52,10 @@ fn dm_from_json(v: &Value) -> DenseMatrix<f64> {
 fn pca_fit(x: &Rows, k: usize, corr: bool) -> Result<Result<PCA<f64, DenseMatrix<f64>>, String>, String> {
     let m = dense(x);
     guard(move || {
-        PCA::fit(&m, PCAParameters::default().with_n_components(k).with_use_correlation_matrix(corr)).map_err(|e| format!("{}", e))
+        // "By default, covariance matrix is used": the documented default is relied upon, not restated
+        let p = PCAParameters::default().with_n_components(k);
+        let p = if corr { p.with_use_correlation_matrix(true) } else { p };
+        PCA::fit(&m, p).map_err(|e| format!("{}", e))
     })
 }
 fn tsvd_fit(x: &Rows, k: usize) -> Result<Result<SVD<f64, DenseMatrix<f64>>, String>, String> {
